@@ -22,6 +22,7 @@ mod fam_array;
 mod fam_cli;
 mod fam_container;
 mod fam_create;
+mod fam_createlarge;
 mod gen;
 mod fam_fold;
 mod fam_marginalize;
@@ -67,6 +68,7 @@ fn family(name: &str) -> Option<Runner> {
         "cli" => fam_cli::run,
         "container" => fam_container::run,
         "create" => fam_create::run,
+        "createlarge" => fam_createlarge::run,
         "fold" => fam_fold::run,
         "marginalize" => fam_marginalize::run,
         "npy" => fam_npy::run,
